@@ -99,10 +99,11 @@ CHECKS = {
         "IEEE-754 binary64 decoded arithmetically in Z, text by collation key, blobs bytewise) and proved a total preorder on all storable values (C11_refl, C11_total, C11_trans); "
         "compare() of db/cmp.go computes it for EVERY pair of storable values, integer-against-real included (C11_compare_spec; C11_int_real: truncate, compare, tie-break through float64(i) = the exact "
         "comparison with the real's dyadic value, for all int64 x non-NaN binary64, via exactness of float64() on integers of <= 53 significant bits); Equals / Search are its lexicographic lifting to keys with "
-        "ASC/DESC and per-column collations (C11_equals, C11_search, C11_equals_search). Every run: all ordered pairs of a 108-value boundary grid x collations against SQLite's own "
+        "ASC/DESC and per-column collations (C11_equals, C11_search, C11_equals_search); NOCASE's loop is the bytewise order of the keys 'A-Z folded bytes before the first NUL, then the total length' - "
+        "SQLite's nocaseCollatingFunc (C11_nocase_order). Every run: all ordered pairs of a 108-value boundary grid x collations against SQLite's own "
         "DENSE_RANK() OVER (ORDER BY v COLLATE c) and the extracted model; random multi-column keys through Equals / Search.",
    note="Go's float64(int64) (round to nearest even), int64(float64) (truncation) and float comparison are written arithmetically in Model/Float.v (IEEE-754 assumed of the hardware). "
-        "Known finding: NOCASE with embedded NUL bytes. Invalid UTF-8 under NOCASE (strings.Map substitutes U+FFFD) is outside the property's 'UTF-8 text'.",
+        "NOCASE with embedded NUL bytes was a recorded finding and is repaired (fix 998447a: byte loop, stop at a NUL in both texts, then lengths); the same repair made NOCASE bytewise on invalid UTF-8.",
    technique="Coq proof (total preorder via denotation; lexicographic lifting) + exhaustive grid differential vs SQLite ranks",
    design="DESIGN.md section 6, C11"),
  "C15": dict(
